@@ -20,7 +20,11 @@ JobRecs(o) == {o.jobs[i] : i \in DOMAIN o.jobs}
 StoreOK(o) == /\ \A r \in JobRecs(o) : r.id \in JobIds /\ r.idf = r.id
               /\ Cardinality({r.id : r \in JobRecs(o)}) = Len(o.jobs)
 BindJobs(o) == [i \in {r.id : r \in JobRecs(o)} |->
-                  LET r == CHOOSE x \in JobRecs(o) : x.id = i IN Job(r.owner, r.chain, r.target, r.payload, r.mod, r.mev)]
+                  LET r == CHOOSE x \in JobRecs(o) : x.id = i IN
+                  \* payload / sp: which document the store holds; den: the bytes it denotes, decoded by the driver from the
+                  \* stored record with the reference decoding (common.FromHex)
+                  [owner |-> r.owner, chain |-> r.chain, target |-> r.target, payload |-> r.payload, sp |-> r.sp, den |-> r.den,
+                   mod |-> r.mod, mev |-> r.mev]]
 BindAdded(o) == [i \in DOMAIN o.added |->
                   LET m == o.added[i] IN [type |-> m.type, chain |-> m.chain, target |-> m.target, body |-> m.body, sfx |-> m.sfx]]
 
@@ -49,7 +53,7 @@ Monitors(e) ==
 
 TrInit == IsEvent("Init") /\ LET e == Trace[l] IN
   /\ jobs' = BindJobs(e.obs) /\ vq' = {} /\ added' = BindAdded(e.obs)
-  /\ res' = "init" /\ last' = Rec("Init", 0, 0, "", 0, 0, 0, 0, FALSE, FALSE, 0) /\ nops' = 0
+  /\ res' = "init" /\ last' = Rec("Init", 0, 0, "", 0, 0, 0, 0, "", FALSE, FALSE, 0) /\ nops' = 0
   /\ Conf("Init", jobs' = [i \in {} |-> 0] /\ added' = <<>>)
 
 Acts == {"Create", "Execute"}
@@ -60,18 +64,18 @@ TrAct == ActEvent(FALSE) /\ LET e == Trace[l]  a == e.args IN
   /\ jobs' = BindJobs(e.obs)
   /\ added' = BindAdded(e.obs)
   /\ vq' = vq \cup {added'[i].chain : i \in Upds(added')}
-  /\ last' = Rec(e.act, a.who, a.as, a.via, a.id, a.chain, a.target, a.payload, a.mod, a.mev, a.pg)
+  /\ last' = Rec(e.act, a.who, a.as, a.via, a.id, a.chain, a.target, a.payload, a.sp, a.mod, a.mev, a.pg)
   /\ res' = IF e.res = "ok" THEN "ok" ELSE Class(e.cs, e.code)
   /\ nops' = nops + 1
   /\ Monitors(e)
   /\ IF e.act = "Create"
      THEN LET w == CreateWhy(a.who, a.as, a.via, a.id, a.chain, a.mev) IN
           ConfD("Create", /\ res' = Coarse(w) /\ added' = <<>>
-                          /\ jobs' = CreateJobs(w, a.who, a.id, a.chain, a.target, a.payload, a.mod, a.mev),
+                          /\ jobs' = CreateJobs(w, a.who, a.id, a.chain, a.target, a.payload, a.sp, a.mod, a.mev),
                 <<a, w, res', e.cs, e.code, e.log>>)
      ELSE LET w == ExecWhy(a.who, a.as, a.via, a.id, a.pg) IN
           ConfD("Execute", /\ res' = Coarse(w) /\ jobs' = jobs
-                           /\ added' = ExecAdded(w, a.who, a.id, a.pg)
+                           /\ added' = ExecAdded(w, a.who, a.id, a.pg, a.sp)
                            \* what else the call carries: the job's MEV requirement, the chain's compass, a relayer
                            /\ \A i \in DOMAIN e.obs.added : LET m == e.obs.added[i] IN
                                  /\ m.mchain = m.chain /\ m.turn = 1 /\ m.asg = 1
